@@ -84,8 +84,11 @@ class bspline(object):
             startx = x.min()
             rangex = x.max() - startx
             if placed is not None:
+                #
+                # startx + rangex may differ from x.max() by rounding.
+                #
                 w = ((placed >= startx) &
-                     (placed <= startx+rangex))
+                     (placed <= x.max()))
                 if w.sum() < 2:
                     bkpt = np.arange(2, dtype='f') * rangex + startx
                 else:
